@@ -561,13 +561,13 @@ def _r_dotdot(kind: str, spelling: str):
         r.has_mode = False
         depth = len([x for x in prefix.split('/') if x])
         if spelling == 'rel-inside':
-            d = 'share/' + nm(s, 'dq') + '/../' + nm(s, 'dr')
-            wk, nd = 'rel', 'share/' + nm(s, 'dr')
-            r.optional_dirs.append(('rel', 'share/' + nm(s, 'dq')))
+            d = 'share/' + nm(s, 'dqdir') + '/../' + nm(s, 'drdir')
+            wk, nd = 'rel', 'share/' + nm(s, 'drdir')
+            r.optional_dirs.append(('rel', 'share/' + nm(s, 'dqdir')))
         elif spelling == 'abs-inside':
-            d = ab + '/etc/' + nm(s, 'dq') + '/../' + nm(s, 'dr')
-            wk, nd = 'abs', ab + '/etc/' + nm(s, 'dr')
-            r.optional_dirs.append(('abs', ab + '/etc/' + nm(s, 'dq')))
+            d = ab + '/etc/' + nm(s, 'dqdir') + '/../' + nm(s, 'drdir')
+            wk, nd = 'abs', ab + '/etc/' + nm(s, 'drdir')
+            r.optional_dirs.append(('abs', ab + '/etc/' + nm(s, 'dqdir')))
         elif spelling == 'rel-above-root':
             assert not ab
             d = '../' * (depth + 1) + 'escaped-rel'
